@@ -8,11 +8,17 @@ PROP = dict(
     rule='x',
     assumptions=[],
     targets=[
+        dict(name='c12_pbkdf2_longpw', src=['props/C12/hmac_kdf.cc'] + _O, libs=['-lcrypto'], defs=['C12_ONLY_PBKDF2', 'C12_PBKDF2_MAXPW=129'],
+             quick=dict(cases=4000, secs=20), thorough=dict(cases=200000, secs=60)),
         dict(name='c12_digest', src=['props/C12/digest.cc'] + _O, libs=['-lcrypto'],
              quick=dict(cases=100000, secs=40), thorough=dict(cases=8000000, secs=200)),
         dict(name='c12_hmac_kdf', src=['props/C12/hmac_kdf.cc'] + _O, libs=['-lcrypto'],
              quick=dict(cases=100000, secs=40), thorough=dict(cases=8000000, secs=200)),
-        dict(name='c12_pbkdf2_longpw', src=['props/C12/hmac_kdf.cc'] + _O, libs=['-lcrypto'], defs=['C12_ONLY_PBKDF2', 'C12_PBKDF2_MAXPW=129'],
-             quick=dict(cases=4000, secs=20), thorough=dict(cases=200000, secs=60)),
+        dict(name='c12_cipher', src=['props/C12/cipher.cc'] + _O, libs=['-lcrypto'],
+             quick=dict(cases=100000, secs=40), thorough=dict(cases=8000000, secs=200)),
+        dict(name='c12_aead', src=['props/C12/aead.cc'] + _O, libs=['-lcrypto'],
+             quick=dict(cases=100000, secs=40), thorough=dict(cases=8000000, secs=200)),
+        dict(name='c12_aead_strict', src=['props/C12/aead.cc'] + _O, libs=['-lcrypto'], defs=['C12_STRICT'],
+             quick=dict(cases=20000, secs=40), thorough=dict(cases=800000, secs=200)),
     ],
 )
